@@ -18,7 +18,7 @@ pub const REQUIRED: &[&str] = &[
     "arm.dispatch[auto]", "arm.score_position", "arm.generic.protein", "class.presaturation_sum>255",
     "class.wildcard_in_window", "class.L=M_or_M+1", "scanner.own_score_threshold", "class.finite_wildcard_above_row_min", "class.consensus_planted", "class.flat_matrix",
     "dispatch_forced.generic", "dispatch_forced.sse2", "dispatch_forced.avx2",
-    "class.history", "class.history.threshold_lowered", "class.history.threshold_raised", "class.history.hits_yielded",
+    "class.history", "class.history.threshold_lowered", "class.history.threshold_raised", "class.history.hits_yielded", "class.history.max_on_near_ties",
 ];
 
 fn gen_c08_matrix(rng: &mut Rng, k: usize, m: usize, fam: usize) -> (Vec<Vec<f32>>, &'static str) {
@@ -380,6 +380,20 @@ fn run_history(case: u64, rng: &mut Rng, rep: &mut Report) {
     };
     for &arm in [Arm::DispAvx2, Arm::DispAuto].iter() {
         crate::scanhist::history_case(case, rng, rep, &inp, arm, crate::scanhist::Finish::Exhaust, "c08", Some("c08.prefilter_lost_hit"));
+    }
+    // the best hit must survive the pre-filter of max() as well: near-tie inputs (wide matrices with
+    // fractional entries, few-valued matrices) where a worse position has the larger byte score
+    let m2 = rng.range(8, 33);
+    let l2 = rng.range(m2.max(200), 3000);
+    let near = loop {
+        let inp = crate::c02::make_scan_input(rng, l2, m2, true);
+        if inp.rows.iter().all(|r| r[..4].iter().all(|x| x.is_finite())) {
+            break inp;
+        }
+    };
+    for &arm in [Arm::DispAvx2, Arm::DispAuto].iter() {
+        crate::scanhist::history_case(case, rng, rep, &near, arm, crate::scanhist::Finish::Max, "c08", None);
+        rep.cover("class.history.max_on_near_ties");
     }
 }
 
